@@ -1012,8 +1012,10 @@ func (t *Table) Reduce(cfg SortConfig, aaps []AliasAccPair) error {
 	id := func(r Row) string {
 		res := bytes.NewBufferString("")
 		for _, c := range cfg {
-			res.WriteString(r[c.Binding].valueKey())
-			res.WriteString(";")
+			// Each value is written with its length: the values of two rows
+			// cannot run into each other ("a;b","c" against "a","b;c").
+			k := r[c.Binding].valueKey()
+			fmt.Fprintf(res, "%d:%s;", len(k), k)
 		}
 		return res.String()
 	}
